@@ -9,3 +9,10 @@ mod rotate;
 
 pub use self::core::{EXTRA_LEN, TAG_LEN};
 pub use common::*;
+
+#[cfg(dswd_vpncloud_verif)]
+pub mod verif_export {
+    pub use super::core::{create_dummy_pair, verif_nonce_increment, CryptoCore};
+    pub use super::init::{InitMsg, InitResult, InitState};
+    pub use super::rotate::{RotatedKey, RotationMessage, RotationState};
+}
